@@ -360,7 +360,7 @@ LoadsVerdict(b, hex, obs) ==
 
 \* C16: a clear card number (longer than 10 characters) appears nowhere in a returned dictionary
 HasSub(hay, needle) == \E i \in 0..(Len(hay) - Len(needle)) : SubSeq(hay, i + 1, i + Len(needle)) = needle
-Leaks(od, secret) == Len(secret) > 10 /\ \E k \in DOMAIN od : od[k].t \in {"s", "b"} /\ HasSub(od[k].v, secret)
+Leaks(od, secret) == Len(secret) > 10 /\ \E k \in DOMAIN od : od[k].t \in {"s", "b", "i"} /\ HasSub(od[k].v, secret)
 
 (***************************************************************************)
 (* Well-formed messages (the precondition of the round-trip property) and  *)
